@@ -281,8 +281,8 @@ func ipHeadersCanCoalesce(pktA, pktB []byte) bool {
 		return false
 	}
 	if pktA[0]>>4 == 6 {
-		if pktA[0] != pktB[0] || pktA[1]>>4 != pktB[1]>>4 {
-			// cannot coalesce with unequal Traffic class values
+		if pktA[0] != pktB[0] || pktA[1] != pktB[1] || pktA[2] != pktB[2] || pktA[3] != pktB[3] {
+			// cannot coalesce with unequal Traffic class or Flow label values
 			return false
 		}
 		if pktA[7] != pktB[7] {
